@@ -16,7 +16,7 @@ ASSUMPTIONS = ["dateutil and uuid execute concretely on realised strings", "RFC 
 FUNCTIONS = ["statham.schema.validation.format:_FormatString.__call__", "statham.schema.validation.format:_FormatString.register",
              "statham.schema.validation.string:Format._validate", "statham.schema.validation.format:_is_uuid", "statham.schema.validation.format:_is_date_time"]
 
-POOL = ("uuid", "date-time", "x", "y")
+POOL = ("uuid", "date-time", "x", "y", "date_time", "x-y", "x_y")
 
 
 class fresh_registry:
@@ -148,17 +148,19 @@ def harnesses(ctx) -> List[H]:
     VAL = "Union[str, int, bool, None, List[int]]"
     VPRE = ["not isinstance(v, str) or len(v) <= 3", "not isinstance(v, list) or len(v) <= 2"]
     for K, tier, to in ((1, "quick", 200), (2, "thorough", 900)):
-        for fi in range(4):
+        for fi in range(7):
             for typed in (True, False):
-                pre = [f"len(names) == {K}", f"len(behs) == {K}", f"len(ks) == {K}", "all(0 <= n < 4 for n in names)", "all(0 <= b < 3 for b in behs)"] + VPRE
+                if fi >= 4 and not typed:
+                    continue
+                pre = [f"len(names) == {K}", f"len(behs) == {K}", f"len(ks) == {K}", "all(0 <= n < 7 for n in names)", "all(0 <= b < 3 for b in behs)"] + VPRE
                 hs.append(mk(f"c16_registry_k{K}_f{fi}_{'string' if typed else 'element'}", f"names: List[int], behs: List[int], ks: List[int], v: {VAL}", pre,
                              f"return registry_ok(names, behs, ks, {fi}, {typed}, v)", tier=tier, timeout=to, group="registry",
                              covers=f"{K} registrations over names {POOL} x behaviours (True, False, len>k), then {'String' if typed else 'Element'}(format={POOL[fi]!r}) on any JSON value"))
-    hs.append(mk("c16_registry_k0", f"fi: int, typed: bool, v: {VAL}", ["0 <= fi < 4"] + VPRE, "return registry_ok([], [], [], fi, typed, v)", timeout=300, group="registry",
+    hs.append(mk("c16_registry_k0", f"fi: int, typed: bool, v: {VAL}", ["0 <= fi < 7"] + VPRE, "return registry_ok([], [], [], fi, typed, v)", timeout=300, group="registry",
                  covers="no registration: unregistered names warn-and-accept"))
     hs.append(mk("c16_symbolic_name", "c: str, beh: bool, v: str", ["len(c) == 1", "len(v) <= 2"], "return symbolic_name_ok(c, beh, v)", timeout=200, group="registry", expect="unknown", tier="thorough",
                  covers="format name = any 1-char string (dict lookup realises the name)"))
-    hs.append(mk("c16__reject", f"names: List[int], behs: List[int], ks: List[int], fi: int, v: str", ["len(names) == 1", "len(behs) == 1", "len(ks) == 1", "0 <= names[0] < 4", "0 <= behs[0] < 3", "0 <= fi < 4", "len(v) <= 3"],
+    hs.append(mk("c16__reject", f"names: List[int], behs: List[int], ks: List[int], fi: int, v: str", ["len(names) == 1", "len(behs) == 1", "len(ks) == 1", "0 <= names[0] < 7", "0 <= behs[0] < 3", "0 <= fi < 7", "len(v) <= 3"],
                  "from vf.common import String, accepts\nwith fresh_registry() as fc:\n    fc.register(POOL[names[0]])(lambda s, k=ks[0]: len(s) > k)\n    return accepts(String(format=POOL[fi]), v) or POOL[fi] != POOL[names[0]]", kind="witness", timeout=60, group="registry"))
     # built-in uuid
     hs.append(mk("c16_uuid_canonical", "p1: int, p2: int, d1: int, d2: int", ["0 <= p1 < 32", "0 <= p2 < 32", "0 <= d1 < 22", "0 <= d2 < 22"],
